@@ -238,7 +238,7 @@ pub fn run(ctx: &Ctx) -> PropertyReport {
     );
     let sub = crate::engine::replay_subcheck_or_all(ctx);
     if sub.runs("equivalence") {
-        let cases = ctx.cfg.cases(40_000, 600_000);
+        let cases = ctx.cfg.cases(40_000, 5_000_000);
         let mut r = ctx.run_prop("equivalence", cases, || forest::forest(db_profile(8)), body);
         r.floor("instance_with_3_props_of_2_types", cases / 20);
         r.floor("alias_spelling", cases / 200);
